@@ -79,6 +79,20 @@ def run(chk):
         add("R-mixed", xs, k, model=len(xs) <= 12, comp=rng.choice([1, 2]),
             engines=("symdel", "kdtree") if k > 1 else ("symdel", "hash_based", "kdtree"))
         add_two("R-mixed", xs[: len(xs) // 2 + 1], xs[len(xs) // 3:], k)
+    # several worker processes in Hamming mode: every length class is searched completely, whatever its size modulo n_cpu
+    for _ in range(4 if not thorough else 20):
+        lens = rng.sample([3, 4, 5, 6], 3)
+        xs = []
+        for L_, cnt in zip(lens, (rng.choice([5, 7]), rng.choice([3, 4]), rng.choice([2, 5]))):
+            root = "".join(rng.choice("ACD") for _ in range(L_))
+            xs += [gen.mutate_sub(rng, root, "ACD", rng.randint(0, 2)) if hasattr(gen, "mutate_sub") else
+                   "".join(c if rng.random() > 0.3 else rng.choice("ACD") for c in root) for _ in range(cnt)]
+        rng.shuffle(xs)
+        ncpu = rng.choice([2, 3, 4])
+        k = rng.choice([1, 2])
+        sop = {"op": "brute_self", "xs": xs, "k": k, "mode": "ham"}
+        b.add("kdtree-ham-parallel|mixed-lengths", lambda xs=xs, k=k, ncpu=ncpu: nn.kdtree(xs, max_edits=k, custom_distance="hamming", n_cpu=ncpu),
+              None, sop, {"xs": xs, "k": k, "n_cpu": ncpu})
     # ONE length class only, with frame-shifted pairs (one deletion + one insertion: Levenshtein 2, Hamming up to the length):
     # equal length does not make the two distances equal
     for _ in range(8 if not thorough else 60):
